@@ -7,6 +7,7 @@ package main
 // proof obligation breaks).
 
 import (
+	"encoding/binary"
 	"encoding/json"
 	"fmt"
 	"os"
@@ -462,6 +463,32 @@ func c20RuleTables(ctx *Ctx, monitor func(string, TCase, string)) {
 		txt, err := rule.ToCommandLine(wf, false)
 		if err != nil || !strings.HasSuffix(txt, "-F pid"+op+"1") {
 			monitor(fmt.Sprintf("C20: operator %q is listed as %q (err=%v)", op, txt, err), c, line)
+		}
+	}
+	// errno names through the rule builder: every name of the errno table (aliases included) used as an exit
+	// code resolves to the table's number, with and without the minus sign
+	for name, n := range auparse.AuditErrnoToNum {
+		for _, neg := range []bool{false, true} {
+			txt, want := name, uint32(n)
+			if neg {
+				txt, want = "-"+name, uint32(-int32(n))
+			}
+			line := "-a always,exit -F exit=" + txt
+			c := TCase{Table: "rule.errno", Key: txt}
+			res.Count("rule.errno", true)
+			r, err := flags.Parse(line)
+			if err != nil {
+				monitor("C20: errno name rejected by flags.Parse: "+err.Error(), c, line)
+				continue
+			}
+			wf, err := rule.Build(r)
+			if err != nil {
+				monitor(fmt.Sprintf("C20: errno name %q (%d in the errno table) is not resolved by the rule builder: %v", name, n, err), c, line)
+				continue
+			}
+			if len(wf) < 4*132 || binary.LittleEndian.Uint32(wf[4*131:]) != want {
+				monitor(fmt.Sprintf("C20: errno name %q resolves to %d in a rule, the errno table says %d", txt, int32(binary.LittleEndian.Uint32(wf[4*131:])), int32(want)), c, line)
+			}
 		}
 	}
 	// inter-field comparisons: every ordered pair of the id fields
